@@ -47,11 +47,12 @@ MODULES = {
  'pdrain': ("Verif.Base.Sx Verif.Model.Proc Verif.Proofs.Proc Verif.Proofs.ProcTheorems Verif.Proofs.ProcDrain", 'Proofs/ProcDrain.v'),
  'gdrain': ("Verif.Base.Sx Verif.Model.Batcher Verif.Model.Proc Verif.Model.StreamFlow Verif.Model.Pipe Verif.Proofs.Batcher Verif.Proofs.Proc Verif.Proofs.StreamFlow Verif.Proofs.Pipe Verif.Proofs.PipeDrain", 'Proofs/PipeDrain.v'),
  'pipe':   ("Verif.Base.Sx Verif.Model.Batcher Verif.Model.Proc Verif.Model.StreamFlow Verif.Model.Pipe Verif.Proofs.Batcher Verif.Proofs.Proc Verif.Proofs.StreamFlow Verif.Proofs.Pipe", 'Proofs/Pipe.v'),
+ 'hold': ("Verif.Base.Sx Verif.Model.Proc Verif.Model.PipeGlue Verif.Proofs.PipeGlue", 'Proofs/PipeGlue.v'),
  'soff':  ("Verif.Base.Sx Verif.Model.StreamOffsets Verif.Proofs.StreamOffsets", 'Proofs/StreamOffsets.v'),
  'bstop': ("Verif.Base.Sx Verif.Model.Batcher Verif.Proofs.Batcher Verif.Gen.BatcherGen Verif.Proofs.BatcherDrain Verif.Proofs.BatcherStop", 'Proofs/BatcherStop.v'),
  'flow':   ("Verif.Base.Sx Verif.Model.Proc Verif.Model.StreamFlow Verif.Proofs.Proc Verif.Proofs.ProcTheorems Verif.Proofs.StreamFlow Verif.Proofs.StreamFlowTheorems", 'Proofs/StreamFlowTheorems.v'),
 }
-REQUIRES = "From Verif Require Base.Sx Model.Stream Proofs.Stream Proofs.StreamTheorems Model.Proc Proofs.Proc Proofs.ProcTheorems Model.Pool Gen.PoolGen Model.PoolGlue Proofs.Pool Proofs.PoolLm Proofs.PoolStd Proofs.PoolTheorems Model.Batcher Proofs.Batcher Gen.BatcherGen Model.StreamFlow Proofs.StreamFlow Proofs.StreamFlowTheorems Model.Charged Proofs.Charged Model.Pipe Proofs.Pipe Proofs.StreamDrain Proofs.BatcherDrain Proofs.ProcDrain Proofs.PipeDrain Model.StreamOffsets Proofs.StreamOffsets Proofs.BatcherStop.\nFrom Coq Require Import List ZArith Permutation Sorted. Import ListNotations. Open Scope Z_scope.\n"
+REQUIRES = "From Verif Require Base.Sx Model.Stream Proofs.Stream Proofs.StreamTheorems Model.Proc Proofs.Proc Proofs.ProcTheorems Model.Pool Gen.PoolGen Model.PoolGlue Proofs.Pool Proofs.PoolLm Proofs.PoolStd Proofs.PoolTheorems Model.Batcher Proofs.Batcher Gen.BatcherGen Model.StreamFlow Proofs.StreamFlow Proofs.StreamFlowTheorems Model.Charged Proofs.Charged Model.Pipe Proofs.Pipe Proofs.StreamDrain Proofs.BatcherDrain Proofs.ProcDrain Proofs.PipeDrain Model.StreamOffsets Proofs.StreamOffsets Proofs.BatcherStop Model.PipeGlue Proofs.PipeGlue.\nFrom Coq Require Import List ZArith Permutation Sorted. Import ListNotations. Open Scope Z_scope.\n"
 
 def block(prefix, part, items, comment):
     imports, path = MODULES[part]
@@ -120,6 +121,17 @@ write("C02", "C02 — per-stream commits arrive in read order, once per event; e
   ("file_input_stores_the_last_commit", "file_input_stores_the_offset_of_the_last_commit", "the offset it stores (and restarts from) for a stream is that of the stream's last commit notification"),
   ("file_input_offsets_nonvacuous", "file_input_offsets_nonvacuous", "two streams, interleaved increasing commits accepted and the last offsets stored; a repeated commit and a commit behind the stored offset both panic"),
  ], "the consumer of the commit order: file input offsets"),
+ block("c02", 'hold', [
+  ("hl_held_marked", "an_action_that_holds_an_event_is_marked_busy", "PRODUCER SIDE OF 'none is unaccounted for' (the hold ledger of Model/PipeGlue.v, replayed by monitor 17 on the processors' own Do / Result / Propagate labels of every real trace - scripted actions and the REAL join, join_template and k8s multiline plugins alike): on every trace the ledger accepts, an action that holds an event is marked busy by its processor - so the processor goes on waiting on the stream and the next event or the stream's time-out reaches the action, which is the only way a held event comes back"),
+  ("hl_clearing_answer_of_a_holder_rejected", "a_holder_that_answers_pass_break_discard_or_hold_is_rejected", "THE SEEDED CLASS (join answering Discard for a line that no longer fits while it holds the first event of the run): in every state, an answer of a holder other than Collapse - Pass, Break and Discard make processor.doActions clear the busy mark, Hold would overwrite the held event - is rejected at that very label"),
+  ("hl_step_keeps_holders_marked", "every_accepted_step_keeps_the_holders_marked", "... and no other label can take the mark from a holder: one accepted step preserves 'held implies marked'"),
+  ("hl_one_event_per_action", "no_action_holds_two_events", "no (processor, action) holds two events at once"),
+  ("hl_accounting", "every_held_event_is_still_held_or_was_propagated_once", "accounting: the events ever held are, as a multiset, the events still held plus the events handed back by Propagate - none handed back twice, none lost"),
+  ("hl_quiescent", "idle_pipeline_every_held_event_was_handed_back", "idle pipeline (monitor 17 demands that nothing is held at quiescence): the events handed back are exactly the events that were held, so each goes on to its commit or drop (the theorems above)"),
+  ("proc_lts_rejects_the_next_do_of_a_forgotten_holder", "processor_model_rejects_the_next_do_of_a_forgotten_holder", "the same trace through the processor LTS (Model/Proc.v, where busy = holds an event): a holder's Discard leaves the event held, and the guard of PDo (the busy bit of the Do label is the model's held_at) rejects the next Do of that action, which the real processor reports as idle"),
+  ("proc_lts_idle_do_on_a_holder_rejected", "processor_model_never_accepts_an_idle_do_on_a_holder", "in general: a Do label with busy = false for an action the processor model knows to hold an event is never a step"),
+  ("hold_ledger_nonvacuous", "hold_ledger_nonvacuous", "one processor, one action: Hold, Collapse, time-out flush is accepted and leaves nothing held; Hold, Discard is rejected by the ledger at the Discard and by the processor LTS one Do later"),
+ ], "the hold ledger: a held event is never forgotten (real and scripted holding actions)"),
 ])
 # ------------------------------------------------------------------------------------------ C01
 write("C01", "C01 — commit frontier safety: a commit notification implies the event was acknowledged by an output and every earlier event of its\n   source and stream was acknowledged or deliberately dropped. Same composition as C02 (DESIGN.md §9.5): in-order take, in-order leave,\n   in-order add, commit only inside the batch's commit section, entered in formation order after the batch's own send returned.", [
@@ -196,6 +208,12 @@ write("C04", "C04 — no wedge. Safety core of liveness for every component (dea
   ("pool_no_stuck_waiter_std", "std_pool_waiter_wakes_within_one_heartbeat", "standard pool: the same"),
   ("pool_stuck_waiter_inverted_refuted", "lowmem_inverted_heartbeat_refuted", "with the inverted condition (the repaired defect) a getter sleeps forever: witness state + proof that no non-environment steps wake it"),
   ("pool_no_stuck_waiter_lowmem_nonvacuous", "lowmem_nonvacuous", "the lost wake-up window is reachable and one heartbeat wakes the sleeper"),
+  ("pool_no_stuck_waiter_hb_lowmem", "lowmem_pool_sleeper_has_a_running_heartbeat_that_wakes_it", "HEARTBEAT LIFE CYCLE (Model/Pool.v: the heartbeat goroutine is started once, by the slow path of get(), and is gone for good if its loop has a way out; the two facts 'get() starts it on every path to Cond.Wait' and 'the loop has no way out but the stop guard' are regenerated from the Go AST - Gen/PoolGen.v pool_lm_hb_starts / pool_lm_hb_forever - and this theorem stops compiling when either is false): low-memory pool, in every reachable state with a getter asleep and free capacity the heartbeat goroutine is RUNNING and non-environment steps of the layered system containing at most one heartbeat wake the getter"),
+  ("pool_no_stuck_waiter_hb_std", "std_pool_sleeper_has_a_running_heartbeat_that_wakes_it", "standard pool: the same (pool_std_hb_starts / pool_std_hb_forever)"),
+  ("pool_fair_heartbeat_wakes_lowmem", "lowmem_pool_every_fair_schedule_wakes_the_sleeper", "LIVENESS UNDER HEARTBEAT FAIRNESS, the assumption made explicit (the running heartbeat ticks again and again; scheduler fairness and wall-clock time are outside the model): for EVERY schedule, environment steps included, a run of the low-memory pool during which a getter stays inside Cond.Wait() contains at most two heartbeat iterations that found capacity free"),
+  ("pool_fair_heartbeat_wakes_std", "std_pool_every_fair_schedule_wakes_the_sleeper", "standard pool: the same"),
+  ("pool_heartbeat_exit_refuted", "heartbeat_with_a_way_out_of_its_loop_refuted", "WITHOUT 'the heartbeat loop has no way out': back-pressure episode, idle period (the heartbeat loads waiters = 0 and returns; the Once never starts it again), lost wake-up - a reachable state with the getter asleep, the pool empty, the heartbeat gone and NO non-environment step enabled: the getter sleeps for ever"),
+  ("pool_heartbeat_lifecycle_nonvacuous", "heartbeat_lifecycle_nonvacuous", "with the generated facts that trace is not a run, without the return it reaches the sleeper with the heartbeat running; after one iteration that found capacity free only the waking Broadcast is left to the heartbeat; the bound two is reached"),
  ], "pools"),
  block("c04", B, [
   ("no_commit_deadlock", "awaited_batch_always_exists", "the batch the commit order is waiting for is always in flight: no commit deadlock"),
